@@ -113,6 +113,9 @@ func mergeSafe(c *Term, a, b Value) (res Value) {
 	defer func() {
 		if r := recover(); r != nil {
 			if _, ok := r.(shapeMismatch); ok {
+				if os_debug {
+					fmt.Println("POISON:", r)
+				}
 				res = PoisonV{Why: fmt.Sprint(r)}
 				return
 			}
